@@ -32,6 +32,7 @@ mod e2;
 mod e3;
 mod e4;
 mod hub;
+mod hubio;
 
 use common::*;
 
@@ -89,6 +90,8 @@ fn main() {
         "C08" => e3::run_c08(&ctx),
         "C09" => e3::run_c09(&ctx),
         "C03" | "C10" => hub::run(&ctx, &id),
+        "C11" => hubio::run_c11(&ctx),
+        "C12" => hubio::run_c12(&ctx),
         _ => machinery_error(format!("unknown property id {id}")),
     }
 }
